@@ -42,6 +42,15 @@ def run(ctx):
                                                "history", "reader rejects"))
     strmodel.report(ctx, "C05/WIRE-MODEL", strmodel.explore_wire, ["no injection"], parts.loc(), 300,
                     select=lambda law: law == "no injection")
+    # a content line written by the serialiser is read back as exactly one line whatever
+    # characters the value holds (the physical-line model shared with C06/C09), and typed
+    # scalar values decode to the same value
+    strmodel.report(ctx, "C05/PHYS-MODEL", strmodel.explore_physical, ["reader", "unfold"],
+                    m.own_method("parser.Contentlines.from_ical").loc(), 100,
+                    select=lambda law: law in ("reader", "unfold"))
+    from .. import codecmodel
+    codecmodel.report(ctx, "C05/SCALARS", codecmodel.explore_scalars, codecmodel.SCALAR_LAWS,
+                      m.cls("prop.vFloat").loc(), 30)
     _classes(ctx)
     from .c06 import unfold_rule
     unfold_rule(ctx, "C05/UNFOLD-EXACT")
